@@ -1735,6 +1735,9 @@ namespace bloch::runtime {
             }
         }
         Value ret = m_returnValue;
+        // Hand the value to the caller and empty the slot: a reference left here kept a returned
+        // temporary alive until the next call happened to overwrite it (late destructors).
+        m_returnValue = {};
         applyStaticClass(ret, typeInfoFromAst(method->decl->returnType.get(),
                                               typeSubstitutionOf(method->owner)));
         endFrame();
@@ -1765,6 +1768,7 @@ namespace bloch::runtime {
             }
         }
         Value ret = m_returnValue;
+        m_returnValue = {};  // see callMethod
         applyStaticClass(ret, typeInfoFromAst(fn->returnType.get()));
         endFrame();
         m_hasReturn = prevReturn;
